@@ -21,6 +21,7 @@ CONSTANTS
   Faults = {}
   AdvMsgs = {}
   MaxAdv = 0
+  Bridgers = {}
   MaxHandles = 3
   MaxCtr = 5
 VIEW View
